@@ -59,9 +59,11 @@ use std::net::IpAddr;
 use std::sync::Arc;
 
 mod cases;
+pub mod dynfits;
 mod types;
 
 pub use cases::generate;
+pub use dynfits::dyn_fits;
 use types::*;
 
 /// deterministic hasher: the iteration order of a hash container is the same at generation and at run time
